@@ -288,7 +288,10 @@ pub fn gen(rng: &mut Rng, focus: Focus) -> ClientScn {
         for c in calls.iter_mut() {
             c.deadline = Dl::Secs(*rng.pick(&[400u64, 700, 1278, 1500, 3650]) * 86_400);
             c.abandon = None;
-            c.start_ms = 0;
+            // a call may also be the first thing that happens on a connection that has been
+            // quiet for months (nothing has advanced the timer queue), or arrive while an
+            // earlier call's timer has been pending for more than a year
+            c.start_ms = *rng.pick(&[0u64, 0, 0, 70, 200, 380, 440, 600]) * 86_400_000;
         }
         plans.clear();
         plans.push(vec![]);
@@ -1122,7 +1125,7 @@ pub fn check(scn: &ClientScn, log: &[Ev], horizon_reached: bool, sim: &Sim) -> V
                     }
                     if let Some((_, ts, true)) = c.r_send {
                         let bound = after_jump(c.deadline.max(ts)) + 2;
-                        if *rt > bound && !extreme {
+                        if *rt > bound && (!extreme || scn.long) {
                             v.push(viol("C05", "late", &[], format!("call {i}: DeadlineExceeded at t={rt}, deadline {} (sent at {ts})", c.deadline)));
                         }
                     }
@@ -1148,7 +1151,7 @@ pub fn check(scn: &ClientScn, log: &[Ev], horizon_reached: bool, sim: &Sim) -> V
                     }
                 }
             }
-        } else if c.abandon.is_none() && !c.skipped && c.r_send.map(|r| r.2).unwrap_or(false) && first_reply.is_none() && first_fail.is_none() && dispatch_killed.is_none() && read_eof.is_none() && !sim.overrun.get() && !far_deadlines && !panicked {
+        } else if c.abandon.is_none() && !c.skipped && c.r_send.map(|r| r.2).unwrap_or(false) && first_reply.is_none() && first_fail.is_none() && dispatch_killed.is_none() && read_eof.is_none() && !sim.overrun.get() && (!far_deadlines || log.last().map(|e| e.t).unwrap_or(0) >= c.deadline.saturating_add(2)) && !panicked {
             // transmitted, never answered, deadline long past, still pending: the deadline is
             // not being enforced (whatever the sink is doing)
             let end_t = log.last().map(|e| e.t).unwrap_or(0);
@@ -1466,7 +1469,35 @@ pub fn check(scn: &ClientScn, log: &[Ev], horizon_reached: bool, sim: &Sim) -> V
         } else {
             "C02"
         };
-        v.push(viol(prop, "panic", &[crate::panic_class(msg)], format!("task {} panicked: {}", sim.names.borrow()[*task], msg)));
+        let mut tags = vec![crate::panic_class(msg)];
+        if tags[0] == "timer-range" {
+            let t_panic = log.iter().rev().find(|e| e.task as usize == *task).map(|e| e.t).unwrap_or(0);
+            let mut armed: Vec<(i64, i64, i64)> = calls
+                .iter()
+                .filter_map(|c| match c.r_send {
+                    Some((_, ts, true)) => {
+                        let mut end = i64::MAX;
+                        if let Some(r) = &c.resolve {
+                            end = end.min(r.1);
+                        }
+                        if let Some(a) = c.abandon {
+                            end = end.min(a.1);
+                        }
+                        Some((ts, c.deadline, end))
+                    }
+                    _ => None,
+                })
+                .collect();
+            // the dispatch arms the timer before it writes the request: the request at the head
+            // of the queue (oldest invoked, unsent, not abandoned) is the one being armed
+            if let Some(c) = calls.iter().filter(|c| c.invoke.is_some() && c.r_send.is_none() && c.abandon.is_none()).min_by_key(|c| c.invoke.unwrap().0) {
+                armed.push((t_panic, c.deadline, i64::MAX));
+            }
+            if crate::profiles::timer_queue_stale(&armed, t_panic) {
+                tags.push("stale-timer-queue");
+            }
+        }
+        v.push(viol(prop, "panic", &tags, format!("task {} panicked: {}", sim.names.borrow()[*task], msg)));
     }
     v
 }
